@@ -14,6 +14,7 @@ MODULES = {"hrs": "coco.hrstoppm", "pix": "coco.pixtopgm", "max": "coco.maxtoppm
 EXT = {"hrs": ("hrs", "ppm"), "pix": ("pix", "pgm"), "max": ("max", "ppm"), "mge": ("mge", "ppm"), "cm3": ("cm3", "ppm"),
        "rat": ("rat", "ppm"), "vef": ("vef", "png")}
 _COUNTER = [0]
+_DIRS = set()
 
 
 class _Sink(io.StringIO):
@@ -27,12 +28,15 @@ class _Sink(io.StringIO):
 def workdir():
     home = os.environ.get("VERIF_HOME") or os.path.dirname(os.path.dirname(os.path.dirname(os.path.abspath(__file__))))
     d = os.path.join(home, ".work", "img-%d" % os.getpid())
-    if not os.path.isdir(d):
+    if d not in _DIRS:
         import atexit
         import shutil
 
-        os.makedirs(d, exist_ok=True)
+        _DIRS.add(d)
         atexit.register(shutil.rmtree, d, True)
+    # (created on every call: nothing may assume that a scratch directory somebody else could see stays in place -
+    # several checks may be running from the same checkout at once)
+    os.makedirs(d, exist_ok=True)
     return d
 
 
